@@ -172,7 +172,7 @@ func (in *vfC02Inst) Apply(ev string, judge bool) string {
 	now := time.Now()
 	label := ""
 	switch f[0] {
-	case "pub":
+	case "pub", "pubdup":
 		if g.conn[f[1]] {
 			label = f[2]
 		}
@@ -293,7 +293,7 @@ func vfC02Scenarios(thorough bool) []*vfGWScenario {
 					continue
 				}
 				var vals []vfValCfg
-				alphabet := []string{"pub:a:m1", "pub:b:m1", "pub:c:m1", "lpub:t:m1", "adv:1900", "adv:200", "adv:62000"}
+				alphabet := []string{"pub:a:m1", "pub:b:m1", "pub:c:m1", "pubdup:a:m1", "lpub:t:m1", "adv:1900", "adv:200", "adv:62000"}
 				switch vmode {
 				case "inline":
 					vals = []vfValCfg{{Name: "V", Topic: "t", Inline: true, Verdict: "A"}}
@@ -317,7 +317,7 @@ func vfC02Scenarios(thorough bool) []*vfGWScenario {
 		out = append(out, &vfGWScenario{Name: strategy + "-queue-w1",
 			Cfg: vfGWCfg{Router: "flood", Peers: peers, Topics: []string{"t"}, SeenTTL: 2, Strategy: strategy, IDFn: "content", Workers: 1, Prefix: prefix,
 				Validators: []vfValCfg{{Name: "V", Topic: "t", Inline: true, Gated: true, GateOnly: []string{"m0"}, Verdict: "A"}}},
-			Alphabet: []string{"pub:a:m0", "pub:a:m1", "pub:b:m1", "pub:c:m1", "lpub:t:m1", "vrel:V:m0:A", "adv:1900"}, Msgs: m2, Depth: d + 1, MaxSubs: 2})
+			Alphabet: []string{"pub:a:m0", "pub:a:m1", "pub:b:m1", "pubdup:c:m1", "lpub:t:m1", "vrel:V:m0:A", "adv:1900"}, Msgs: m2, Depth: d + 1, MaxSubs: 2})
 	}
 	return out
 }
